@@ -55,4 +55,14 @@ D_11111 == {"S6a", "S6b", "S7a", "S7b", "RM"}
 MC_AllDefects == D_11111
 MC_None == D_00000
 ASSUME \A m \in MC_Maps3 : WellFormed(m)
+\* C14: "ids outside the mapped range pass unchanged and translation there and back is the identity on the range",
+\* for every id of the (small) id space and every candidate mapping
+Ids == {Id(h, l) : h \in 0..B-1, l \in 0..B-1}
+InRange(x, base, r) == IdGe(x, base) /\ IdLt(IdSub(x, base), r)
+RoundTrip == \A m \in MC_Maps3 \cup {NoMap}, x \in Ids :
+   /\ InRange(x, m.e, m.r) => InRange(In(m, x), m.i, m.r) /\ Out(m, In(m, x)) = x
+   /\ InRange(x, m.i, m.r) => InRange(Out(m, x), m.e, m.r) /\ In(m, Out(m, x)) = x
+   /\ ~InRange(x, m.e, m.r) => In(m, x) = x
+   /\ ~InRange(x, m.i, m.r) => Out(m, x) = x
+ASSUME RoundTrip
 =============================================================================
